@@ -85,6 +85,9 @@ def s2_tasks(tier):
     for pre in FAR_PREFIX:
         for first in [s[0] for s in far_alphabet()] + [None]:
             s2.append(dict(kind='farctx', pre=pre, first=first))
+    # constant-target family: call / tail / jal to an absolute address given as a constant, at every low-12-bit phase of the distance
+    for base in (0x20000000, 0x100000, 0x40):
+        s2.append(dict(kind='consttarget', base=base))
     return s2
 
 
@@ -112,6 +115,16 @@ def s2_programs(task):
             yield [jal('A')] + mid + [L.align(2), L.label('A'), tail]
             yield [L.label('A'), tail] + mid + [L.align(2), jal('A')]
             yield [L.call('A')] + mid + [L.label('B'), L.align(4), L.label('A'), tail, L.data('dw B', ('<I', ('label', 'B')))]
+        return
+    if task.get('kind') == 'consttarget':
+        base = task['base']
+        for d in range(0, 48, 2):
+            for n in range(0, 12):
+                k = L.const('K', hex(base + d), base + d)
+                pad = [progs.I('addi', rd=8, rs1=8, imm=1)] * n
+                yield [k] + pad + [L.call('K'), L.call('K', tail=True)]
+                if base < 0x100000:
+                    yield [k] + pad + [progs.I('jal', 'jal x1, K', rd=1, imm=('offset', 'K')), progs.I('jal', 'j K', rd=0, imm=('offset', 'K'))]
         return
     if task.get('kind') == 'farctx':
         alpha = far_alphabet()
